@@ -16,7 +16,7 @@
 (* significant first (TLC integers are 32-bit); big.Int amounts are exact  *)
 (* quotients by a per-row scale, Bad = -2^30 marks "not such a quotient".  *)
 (***************************************************************************)
-EXTENDS Integers, Sequences, FiniteSets, Bitwise
+EXTENDS Integers, Sequences, FiniteSets, Bitwise, TLC
 
 Byte == 0..255
 Rep(b, n) == [i \in 1..n |-> b]
@@ -230,4 +230,30 @@ LawsMerge(o, a, r) == LawDelta(o, a, r) /\ LawNonce(o, a, r) /\ LawStorage(o, a,
 
 \* ---- checked subtraction.  r = [err, v]
 LawSafeSub(a, b, r, B) == r.err = LimbLess(a, b) /\ (~r.err => r.v = LimbSub(a, b, B))
+
+\* ---------------------------------------------------------------- views beyond the listed laws
+\* (no listed property speaks about these two helpers: disagreement is reported as drift, never as a violation)
+\* ReturnCode.String: the documented names of the eleven codes, "unknown error, code: <n>" for every other number
+ReturnCodeName(n) ==
+  CASE n = 0 -> "ok" [] n = 1 -> "function not found" [] n = 2 -> "wrong signature for function" [] n = 3 -> "contract not found"
+    [] n = 4 -> "user error" [] n = 5 -> "out of gas" [] n = 6 -> "account collision" [] n = 7 -> "out of funds"
+    [] n = 8 -> "call stack overflow" [] n = 9 -> "contract invalid" [] n = 10 -> "execution failed"
+    [] OTHER -> "unknown error, code: " \o ToString(n)
+\* VMOutput.GetFirstReturnData: kinds AsBigInt = 1, AsBigIntString = 2, AsString = 4, AsHex = 8; no return data or any other
+\* kind is an error.  Result: [err, v (bytes), vs (string)]; a field that the kind does not fix is "any"
+HexDigitStr == "0123456789abcdef"
+RECURSIVE HexStr(_)
+HexStr(b) == IF b = <<>> THEN "" ELSE SubSeq(HexDigitStr, (b[1] \div 16) + 1, (b[1] \div 16) + 1) \o SubSeq(HexDigitStr, (b[1] % 16) + 1, (b[1] % 16) + 1) \o HexStr(Tail(b))
+RECURSIVE DropZeros(_)
+DropZeros(b) == IF b # <<>> /\ b[1] = 0 THEN DropZeros(Tail(b)) ELSE b
+RECURSIVE BytesVal(_)
+BytesVal(b) == IF b = <<>> THEN 0 ELSE 256 * BytesVal(SubSeq(b, 1, Len(b) - 1)) + b[Len(b)]
+FirstReturnDataOK(rd, kind, err, v, vs) ==
+  IF rd = <<>> \/ kind \notin {1, 2, 4, 8} THEN err
+  ELSE /\ ~err
+       /\ kind = 1 => v = DropZeros(rd[1])                                                    \* the magnitude of the number
+       /\ (kind = 2 /\ Len(DropZeros(rd[1])) <= 3) => vs = ToString(BytesVal(DropZeros(rd[1])))   \* decimal (TLC-sized numbers only)
+       /\ kind = 4 => v = rd[1]                                                               \* the bytes themselves
+       /\ kind = 8 => vs = HexStr(rd[1])                                                      \* lower-case hex
+
 =============================================================================
